@@ -398,6 +398,12 @@ class CallMixin:
             et = bt.args[0]
             s = self.short(et)
             pre = {'vector': f'vec_{s}', 'string': 'str', 'strview': 'strview'}[fam]
+            if fam == 'string' and self.spec.options.get('path_model') == 'text' and m in ('filename', 'string', 'native', 'generic_string'):
+                if m == 'filename':
+                    self.helpers.add('str')
+                    return f'cxx_path_filename({obj})'
+                self.helpers.add('str')
+                return f'str_clone({obj})'
             if m in ('size', 'length'):
                 return f'{obj}.n'
             if m in ('data', 'begin', 'cbegin', 'c_str'):
